@@ -17,6 +17,9 @@ package bfe_server
 //   x method {GET, HEAD, POST} x body {none, Content-Length: 0, Content-Length body, chunked
 //     body, empty chunked body, Content-Length body with Expect: 100-continue}
 //
+// plus the same oracle after configuration histories (start-up followed by every short sequence
+// of real server-data-conf / gslb-data-conf reloads on a fresh server; see c08hist below).
+//
 // Per-attempt fates: response 200 / 500, ConnectError, ConnectError that also takes every
 // backend of that sub-cluster out of service, WriteRequestError before any byte / after part of
 // the body / after the whole request, ReadRespHeaderError, RespHeaderTimeoutError,
@@ -49,6 +52,7 @@ import (
 	"time"
 
 	"github.com/bfenetworks/bfe/bfe_balance/backend"
+	"github.com/bfenetworks/bfe/bfe_config/bfe_conf"
 	"github.com/bfenetworks/bfe/bfe_fcgi"
 	"github.com/bfenetworks/bfe/bfe_http"
 	"github.com/bfenetworks/bfe/verifkit/vk"
@@ -198,11 +202,20 @@ type c08family struct {
 	presleep int    // ns the fake clock is advanced before the request (rotates the cross pick)
 	alphabet []string
 	est      int64
+	hist     *c08hist // nil: cluster present since start-up of the shared server; else see c08hist
 }
 
-func (f *c08family) cluster() string { return c08clusterName(f.lay.name, f.m, f.c, f.rl) }
-func (f *c08family) cap() int        { return 1 + f.m + f.c }
+func (f *c08family) cluster() string {
+	if f.hist != nil {
+		return c08histCluster
+	}
+	return c08clusterName(f.lay.name, f.m, f.c, f.rl)
+}
+func (f *c08family) cap() int { return 1 + f.m + f.c }
 func (f *c08family) name() string {
+	if f.hist != nil {
+		return fmt.Sprintf("H[%s]/%sm%dc%dr%d/%s-%s/A%d", f.hist.name(), f.lay.name, f.m, f.c, f.rl, f.method, f.body, len(f.alphabet))
+	}
 	return fmt.Sprintf("%s/%s-%s/dn[%s]/%s/ps%d/A%d", f.cluster(), f.method, f.body, strings.Join(f.down, ","), f.cookie, f.presleep, len(f.alphabet))
 }
 
@@ -261,7 +274,7 @@ type c08topo struct {
 // is 2000-01-01T00:00:00Z + offset, and these offsets make that choice take every residue
 // mod 2 and mod 3 (quick), also mod 4 (thorough) — i.e. every candidate sub-cluster is picked
 // in some family (see the sum_attempts_outside_primary_to_* counters). Only families with
-// CrossRetry > 0 are multiplied by the offsets.
+// CrossRetry > 0 are multiplied by the offsets (quick tier: only layouts L1 and L3).
 var c08presleepsQ = []int{0, 3, 7}
 var c08presleepsT = []int{0, 1, 3, 4, 7, 9}
 
@@ -275,9 +288,10 @@ func c08families(thorough bool, topos []c08topo) []*c08family {
 		for _, mc := range rcs {
 			pss := []int{0}
 			if mc[1] > 0 {
-				pss = c08presleepsQ
 				if thorough {
 					pss = c08presleepsT
+				} else if tp.lay.name == "L1" || tp.lay.name == "L3" {
+					pss = c08presleepsQ // quick: only where the weight-0 candidates give the pick a choice
 				}
 			}
 			for _, ps := range pss {
@@ -557,6 +571,9 @@ func c08judge(f *c08family, atts []c08att) []c08viol {
 	n := len(atts)
 	ctx := fmt.Sprintf("cluster RetryMax=%d CrossRetry=%d RetryLevel=%d, layout %s weights %v, initially down %v, primary sub-cluster %q; request %s with body=%s; attempts: %s",
 		f.m, f.c, f.rl, f.lay.name, f.lay.weights, f.down, f.primary, f.method, f.body, c08history(f, atts))
+	if f.hist != nil {
+		ctx = fmt.Sprintf("configuration history %s (start-up with server data conf S%d and gslb data conf G%d, then reloads in that order; S versions of cluster X = RetryMax/CrossRetry/RetryLevel %v, G versions = layout of X %q); in force: ", f.hist.name(), f.hist.s0, f.hist.g0, c08histS, c08histG) + ctx
+	}
 	// R1
 	for k := 0; k+1 < n; k++ {
 		if !f.mayResendAfter(atts[k].kind) {
@@ -599,6 +616,204 @@ func c08judge(f *c08family, atts []c08att) []c08viol {
 		}
 	}
 	return vs
+}
+
+// ---- configuration histories ----------------------------------------------------------------
+//
+// The retry budget a request sees is a copy: RetryMax / CrossRetry live in cluster_conf (server
+// data conf) and are pushed into the per-cluster balancer objects, which are created and replaced
+// by gslb / cluster_table (re)loads. So the statement must hold after EVERY order of loads, not
+// only for clusters present at start-up. A history = start-up (real InitDataLoad) with one
+// version of the server data conf and one of the gslb data conf, followed by every sequence (up
+// to a depth) of the real reload operations srv.serverDataConfReload(version) and
+// srv.gslbDataConfReload(version), on a fresh server. Versions of the cluster under test "X":
+//   server data conf  S0: RetryMax 0 CrossRetry 0 RetryLevel 0 | S1: 2/1/1 | S2: 1/0/1
+//   gslb data conf    G0: X absent (only cluster K) | G1: X with layout L1 | G2: X with layout L3
+// (X is always routed and always in cluster_conf, so introducing / removing / re-introducing X by
+// gslb reloads, changing its layout, and changing its retry settings while its balancer exists
+// or not, are all covered.) Reference model of a history: the retry settings in force are those of
+// the last server data conf applied, the layout that of the last gslb data conf applied; the
+// existing oracle R1..R4 is then evaluated with exactly these on every fault sequence.
+
+const c08histCluster = "X"
+
+var c08histS = [][3]int{{0, 0, 0}, {2, 1, 1}, {1, 0, 1}} // RetryMax, CrossRetry, RetryLevel of X
+var c08histG = []string{"", "L1", "L3"}                  // layout of X ("" = X not in gslb / cluster_table)
+
+type c08hop struct {
+	kind byte // 'S' or 'G'
+	v    int
+}
+
+type c08hist struct {
+	s0, g0 int
+	ops    []c08hop
+}
+
+func (h *c08hist) name() string {
+	s := fmt.Sprintf("S%dG%d", h.s0, h.g0)
+	for _, o := range h.ops {
+		s += fmt.Sprintf(".%c%d", o.kind, o.v)
+	}
+	return s
+}
+
+// model: versions in force after the history
+func (h *c08hist) final() (sv, gv int) {
+	sv, gv = h.s0, h.g0
+	for _, o := range h.ops {
+		if o.kind == 'S' {
+			sv = o.v
+		} else {
+			gv = o.v
+		}
+	}
+	return
+}
+
+func c08hists(depth int) []*c08hist {
+	var out []*c08hist
+	ops := []c08hop{}
+	for v := range c08histS {
+		ops = append(ops, c08hop{'S', v})
+	}
+	for v := range c08histG {
+		ops = append(ops, c08hop{'G', v})
+	}
+	var rec func(h *c08hist)
+	rec = func(h *c08hist) {
+		if _, gv := h.final(); c08histG[gv] != "" {
+			out = append(out, h) // X has a balancer: requests reach the retry loop
+		}
+		if len(h.ops) == depth {
+			return
+		}
+		for _, o := range ops {
+			rec(&c08hist{s0: h.s0, g0: h.g0, ops: append(append([]c08hop{}, h.ops...), o)})
+		}
+	}
+	for s0 := range c08histS {
+		for g0 := range c08histG {
+			rec(&c08hist{s0: s0, g0: g0})
+		}
+	}
+	return out
+}
+
+type c08histFiles struct {
+	host, vip, route string
+	clusterConf      []string // per S version
+	gslb, table      []string // per G version
+}
+
+func c08clusterConfEntry(m, c, rl int) map[string]interface{} {
+	type M = map[string]interface{}
+	return M{
+		"BackendConf":  M{"TimeoutConnSrv": 2000, "TimeoutResponseHeader": 50000, "MaxIdleConnsPerHost": 0, "RetryLevel": rl},
+		"CheckConf":    M{"Schem": "tcp", "FailNum": 1000, "CheckInterval": 1000},
+		"GslbBasic":    M{"CrossRetry": c, "RetryMax": m, "HashConf": M{"HashStrategy": 0, "HashHeader": "Cookie:UID", "SessionSticky": false}},
+		"ClusterBasic": M{"TimeoutReadClient": 30000, "TimeoutWriteClient": 60000, "TimeoutReadClientAgain": 30000, "ReqWriteBufferSize": 512, "ReqFlushInterval": 0, "ResFlushInterval": -1, "CancelOnClientClose": false},
+	}
+}
+
+func c08writeHistFiles(dir string, lays []*c08layout) *c08histFiles {
+	type M = map[string]interface{}
+	os.MkdirAll(dir, 0o755)
+	byName := map[string]*c08layout{}
+	for _, l := range lays {
+		byName[l.name] = l
+	}
+	fs := &c08histFiles{}
+	fs.host = h1write(dir, "host_rule.data", M{"Version": "v", "DefaultProduct": nil, "Hosts": M{"tag": []string{"example.org"}}, "HostTags": M{"p": []string{"tag"}}})
+	fs.vip = h1write(dir, "vip_rule.data", M{"Version": "v", "Vips": M{}})
+	fs.route = h1write(dir, "route_rule.data", M{"Version": "v", "ProductRule": M{"p": []M{
+		{"Cond": fmt.Sprintf("req_path_prefix_in(\"/%s/\", false)", c08histCluster), "ClusterName": c08histCluster},
+		{"Cond": "default_t()", "ClusterName": "K"}}}})
+	for v, mcr := range c08histS {
+		fs.clusterConf = append(fs.clusterConf, h1write(dir, fmt.Sprintf("cluster_conf.S%d.data", v), M{"Version": fmt.Sprintf("S%d", v), "Config": M{
+			c08histCluster: c08clusterConfEntry(mcr[0], mcr[1], mcr[2]),
+			"K":            c08clusterConfEntry(0, 0, 0)}}))
+	}
+	for v, ln := range c08histG {
+		g := M{"K": M{"GSLB_BLACKHOLE": 0, "s1": 100}}
+		tb := M{"K": M{"s1": []M{{"Addr": "10.0.1.1", "Name": "k1", "Port": 80, "Weight": 1}}}}
+		if ln != "" {
+			l := byName[ln]
+			gx, tx := M{}, M{}
+			for sub, bks := range l.subs {
+				gx[sub] = l.weights[sub]
+				var bl []M
+				for _, b := range bks {
+					bl = append(bl, M{"Addr": b.Addr, "Name": b.Name, "Port": b.Port, "Weight": b.Weight})
+				}
+				tx[sub] = bl
+			}
+			g[c08histCluster], tb[c08histCluster] = gx, tx
+		}
+		fs.gslb = append(fs.gslb, h1write(dir, fmt.Sprintf("gslb.G%d.data", v), M{"Clusters": g, "Hostname": "", "Ts": fmt.Sprint(v)}))
+		fs.table = append(fs.table, h1write(dir, fmt.Sprintf("cluster_table.G%d.data", v), M{"Config": tb, "Version": fmt.Sprintf("G%d", v)}))
+	}
+	return fs
+}
+
+// c08histServer plays the history on a fresh real server (outside any bubble).
+func c08histServer(t *testing.T, dir string, fs *c08histFiles, h *c08hist) *BfeServer {
+	cfg := bfe_conf.BfeConfig{}
+	bfe_conf.SetDefaultConf(&cfg)
+	cfg.Server.HostRuleConf, cfg.Server.VipRuleConf, cfg.Server.RouteRuleConf = fs.host, fs.vip, fs.route
+	cfg.Server.ClusterConf = fs.clusterConf[h.s0]
+	cfg.Server.GslbConf, cfg.Server.ClusterTableConf = fs.gslb[h.g0], fs.table[h.g0]
+	cfg.Server.NameConf = ""
+	srv := NewBfeServer(cfg, dir, "verif")
+	if err := srv.InitDataLoad(); err != nil {
+		t.Fatalf("c08 history %s: InitDataLoad: %v", h.name(), err)
+	}
+	for i, o := range h.ops {
+		var err error
+		if o.kind == 'S' {
+			err = srv.serverDataConfReload(fs.host, fs.vip, fs.route, fs.clusterConf[o.v])
+		} else {
+			err = srv.gslbDataConfReload(fs.gslb[o.v], fs.table[o.v])
+		}
+		if err != nil {
+			t.Fatalf("c08 history %s: op %d: %v", h.name(), i, err)
+		}
+	}
+	return srv
+}
+
+var c08histKinds = []string{"ok", "connect", "connect-down", "readhdr", "other"}
+var c08histShapesQ = [][2]string{{"GET", "none"}, {"POST", "cl"}}
+var c08histShapesT = [][2]string{{"GET", "none"}, {"POST", "cl"}, {"GET", "chunked"}, {"HEAD", "none"}}
+
+func c08histFamilies(h *c08hist, lays []*c08layout, thorough bool) []*c08family {
+	sv, gv := h.final()
+	var lay *c08layout
+	for _, l := range lays {
+		if l.name == c08histG[gv] {
+			lay = l
+		}
+	}
+	shapes := c08histShapesQ
+	if thorough {
+		shapes = c08histShapesT
+	}
+	var fs []*c08family
+	for _, sh := range shapes {
+		f := &c08family{lay: lay, m: c08histS[sv][0], c: c08histS[sv][1], rl: c08histS[sv][2], method: sh[0], body: sh[1],
+			cookie: "u0", primary: lay.primary, alphabet: c08histKinds, hist: h}
+		f.est = f.estimate()
+		fs = append(fs, f)
+	}
+	return fs
+}
+
+// one unit of work for a shard: a set of families that share one server
+type c08unit struct {
+	key  string
+	est  int64
+	fams []*c08family
+	hist *c08hist
 }
 
 // ---- entry point ----------------------------------------------------------------------------
@@ -657,32 +872,54 @@ func TestVerifC08(t *testing.T) {
 	}
 	lays := c08layouts()
 	srv := h1newServer(filepath.Join(dir, "c08"), c08spec(lays))
+	histFiles := c08writeHistFiles(filepath.Join(dir, "c08hist"), lays)
 
-	var fams []*c08family
+	tiers := []bool{r.Thorough()}
 	if r.Replaying() {
-		seen := map[string]bool{}
-		for _, th := range []bool{false, true} {
-			for _, f := range c08families(th, c08topos(t, srv, lays, th)) {
-				if !seen[f.name()] {
-					seen[f.name()] = true
-					fams = append(fams, f)
-				}
+		tiers = []bool{false, true}
+	}
+	var units []*c08unit
+	seen := map[string]bool{}
+	nBase, nHist, nHistFam := 0, 0, 0
+	for _, th := range tiers {
+		for _, f := range c08families(th, c08topos(t, srv, lays, th)) {
+			if !seen[f.name()] {
+				seen[f.name()] = true
+				units = append(units, &c08unit{key: f.name(), est: f.est, fams: []*c08family{f}})
+				nBase++
 			}
 		}
-	} else {
-		fams = c08families(r.Thorough(), c08topos(t, srv, lays, r.Thorough()))
-	}
-	// deal the families to the shards: largest first, each to the least loaded shard
-	sort.SliceStable(fams, func(i, j int) bool {
-		if fams[i].est != fams[j].est {
-			return fams[i].est > fams[j].est
+		depth := 2
+		if th {
+			depth = 3
 		}
-		return fams[i].name() < fams[j].name()
+		for _, h := range c08hists(depth) {
+			u := &c08unit{key: "H[" + h.name() + "]", hist: h, est: 40} // 40 ~ cost of building the server
+			for _, f := range c08histFamilies(h, lays, th) {
+				if !seen[f.name()] {
+					seen[f.name()] = true
+					u.fams = append(u.fams, f)
+					u.est += f.est
+				}
+			}
+			if len(u.fams) > 0 {
+				units = append(units, u)
+				nHist++
+				nHistFam += len(u.fams)
+			}
+		}
+	}
+	// deal the units to the shards: largest first, each to the least loaded shard
+	sort.SliceStable(units, func(i, j int) bool {
+		if units[i].est != units[j].est {
+			return units[i].est > units[j].est
+		}
+		return units[i].key < units[j].key
 	})
 	shardI, shardN := r.Shard()
 	load := make([]int64, shardN)
-	owner := make([]int, len(fams))
-	for i, f := range fams {
+	owner := make([]int, len(units))
+	for i, u := range units {
 		best := 0
 		for s := 1; s < shardN; s++ {
 			if load[s] < load[best] {
@@ -690,23 +927,28 @@ func TestVerifC08(t *testing.T) {
 			}
 		}
 		owner[i] = best
-		load[best] += f.est + 2
+		load[best] += u.est + 2
 	}
 	rcs := c08retryConfsQ
 	if r.Thorough() {
 		rcs = c08retryConfsT
 	}
-	r.Set("bounds", fmt.Sprintf("families=%d = 4 gslb layouts x initial availability x hash key (x clock offsets %v when CrossRetry>0) x (RetryMax,CrossRetry) in %v x RetryLevel 0..1 x %d methods x %d body shapes; answer alphabet %d kinds; every reachable answer sequence up to 1+RetryMax+CrossRetry attempts (max 4)",
-		len(fams), map[bool][]int{false: c08presleepsQ, true: c08presleepsT}[r.Thorough()], rcs, len(c08methods), r.Pick(len(c08bodiesQ), len(c08bodiesT)), r.Pick(len(c08kindsQ), len(c08kindsT))))
+	r.Set("bounds", fmt.Sprintf("start-up clusters: families=%d = 4 gslb layouts x initial availability x hash key (x clock offsets %v when CrossRetry>0) x (RetryMax,CrossRetry) in %v x RetryLevel 0..1 x %d methods x %d body shapes, answer alphabet %d kinds; configuration histories: %d histories (start-up with 3x3 versions + every sequence of <=%d reloads over {server data conf S0..S2, gslb data conf G0..G2} that leaves the cluster balanced) x %d request shapes = %d families, answer alphabet %d kinds; every reachable answer sequence up to 1+RetryMax+CrossRetry attempts (max 4)",
+		nBase, map[bool][]int{false: c08presleepsQ, true: c08presleepsT}[r.Thorough()], rcs, len(c08methods), r.Pick(len(c08bodiesQ), len(c08bodiesT)), r.Pick(len(c08kindsQ), len(c08kindsT)),
+		nHist, r.Pick(2, 3), r.Pick(len(c08histShapesQ), len(c08histShapesT)), nHistFam, len(c08histKinds)))
 
 	backsOf := map[string]map[string]*backend.BfeBackend{}
 	complete := true
 	samples := 0
-	for i, f := range fams {
-		f := f
-		name := f.name()
+	for i, u := range units {
 		if r.Replaying() {
-			if !strings.HasPrefix(r.ReplayCase(), name+"|trace:") {
+			hit := false
+			for _, f := range u.fams {
+				if strings.HasPrefix(r.ReplayCase(), f.name()+"|trace:") {
+					hit = true
+				}
+			}
+			if !hit {
 				continue
 			}
 		} else if owner[i] != shardI {
@@ -715,82 +957,110 @@ func TestVerifC08(t *testing.T) {
 		if !complete {
 			break
 		}
-		backs := backsOf[f.cluster()]
-		if backs == nil {
-			backs = c08backs(srv, f.cluster())
-			backsOf[f.cluster()] = backs
+		usrv := srv
+		if u.hist != nil {
+			usrv = c08histServer(t, filepath.Join(dir, "c08hist"), histFiles, u.hist)
+			r.Add("sum_histories_run", 1)
 		}
-		var famExecs int64
-		n := vk.ExploreSharded(r, name, 0, -1, func(ch *vk.Chooser) {
-			res := c08exec(t, srv, f, backs, ch)
-			if ch.Skipped {
-				return
+		for _, f := range u.fams {
+			f := f
+			name := f.name()
+			if r.Replaying() && !strings.HasPrefix(r.ReplayCase(), name+"|trace:") {
+				continue
 			}
-			id := ch.CaseID(name)
-			if !r.Case(id) {
-				return
+			if !complete {
+				break
 			}
-			famExecs++
-			if res.err != "" {
-				t.Fatalf("c08 harness error in %s: %s; attempts: %s", id, res.err, c08history(f, res.atts))
+			var backs map[string]*backend.BfeBackend
+			if u.hist != nil {
+				backs = c08backs(usrv, f.cluster())
+			} else if backs = backsOf[f.cluster()]; backs == nil {
+				backs = c08backs(usrv, f.cluster())
+				backsOf[f.cluster()] = backs
 			}
-			na := len(res.atts)
-			r.Add("sum_roundtrip_attempts", int64(na))
-			r.Transitions(int64(na))
-			failed := false
-			cross := false
-			for k, a := range res.atts {
-				if !c08isResponse(a.kind) {
-					failed = true
+			if len(backs) == 0 {
+				t.Fatalf("c08: no backends for cluster %s in %s", f.cluster(), name)
+			}
+			var famExecs int64
+			n := vk.ExploreSharded(r, name, 0, -1, func(ch *vk.Chooser) {
+				res := c08exec(t, usrv, f, backs, ch)
+				if ch.Skipped {
+					return
 				}
-				if f.primary != "" && a.sub != f.primary {
-					cross = true
-					r.Add("sum_attempts_outside_primary_to_"+a.sub, 1)
+				id := ch.CaseID(name)
+				if !r.Case(id) {
+					return
 				}
-				if k+1 < na {
-					r.Add("sum_resent_after_"+c08kindClass(a.kind), 1)
-				} else if !c08isResponse(a.kind) {
-					r.Add("sum_not_resent_after_"+c08kindClass(a.kind), 1)
+				famExecs++
+				if res.err != "" {
+					t.Fatalf("c08 harness error in %s: %s; attempts: %s", id, res.err, c08history(f, res.atts))
 				}
-			}
-			if failed {
-				r.Nontrivial(id)
-			}
-			final := "no-attempt"
-			if na > 0 {
-				final = "last-failed"
-				if c08isResponse(res.atts[na-1].kind) {
-					final = "last-answered"
+				na := len(res.atts)
+				r.Add("sum_roundtrip_attempts", int64(na))
+				r.Transitions(int64(na))
+				failed := false
+				cross := false
+				for k, a := range res.atts {
+					if !c08isResponse(a.kind) {
+						failed = true
+					}
+					if f.primary != "" && a.sub != f.primary {
+						cross = true
+						r.Add("sum_attempts_outside_primary_to_"+a.sub, 1)
+					}
+					if k+1 < na {
+						r.Add("sum_resent_after_"+c08kindClass(a.kind), 1)
+					} else if !c08isResponse(a.kind) {
+						r.Add("sum_not_resent_after_"+c08kindClass(a.kind), 1)
+					}
 				}
-			}
-			oc := fmt.Sprintf("attempts=%d/%s", na, final)
-			if cross {
-				oc += "/cross"
-			}
-			if res.status == "closed" {
-				oc += "/conn-closed"
-			}
-			r.Outcome(oc)
-			vs := c08judge(f, res.atts)
-			if len(vs) > 0 {
-				r.Outcome("VIOLATING")
-				for _, v := range vs {
-					r.Violation(v.sig, id, name+": "+v.detail)
+				if failed {
+					r.Nontrivial(id)
 				}
-			} else if samples < 6 && na >= 2 && famExecs%53 == 7 {
-				samples++
-				r.Sample(map[string]interface{}{"case": id, "attempts": c08history(f, res.atts), "client": res.status})
+				final := "no-attempt"
+				if na > 0 {
+					final = "last-failed"
+					if c08isResponse(res.atts[na-1].kind) {
+						final = "last-answered"
+					}
+				}
+				oc := fmt.Sprintf("attempts=%d/%s", na, final)
+				if cross {
+					oc += "/cross"
+				}
+				if res.status == "closed" {
+					oc += "/conn-closed"
+				}
+				r.Outcome(oc)
+				vs := c08judge(f, res.atts)
+				if len(vs) > 0 {
+					r.Outcome("VIOLATING")
+					for _, v := range vs {
+						sig := v.sig
+						if f.hist != nil && len(f.hist.ops) > 0 {
+							sig += ":after-reloads"
+						}
+						r.Violation(sig, id, name+": "+v.detail)
+					}
+				} else if samples < 6 && na >= 2 && famExecs%53 == 7 {
+					samples++
+					r.Sample(map[string]interface{}{"case": id, "attempts": c08history(f, res.atts), "client": res.status})
+				}
+			}, func() bool {
+				if r.Expired("c08 " + name) {
+					complete = false
+					return true
+				}
+				return false
+			})
+			r.Traces(n)
+			r.States(n)
+			r.Add("sum_families_run", 1)
+			if u.hist != nil {
+				r.Add("sum_executions_after_history", n)
+			} else {
+				r.Add("sum_executions_"+f.lay.name, n)
 			}
-		}, func() bool {
-			if r.Expired("c08 " + name) {
-				complete = false
-				return true
-			}
-			return false
-		})
-		r.Traces(n)
-		r.States(n)
-		r.Add("sum_families_run", 1)
-		r.Add("sum_executions_"+f.lay.name, n)
+		}
 	}
 }
